@@ -31,10 +31,10 @@ PY
 )
     # (1) demo on clean tree
     git apply $d/demo$k.diff 2>>$log || { echo "demo-applies=NO" >> $res; continue; }
-    ( eval "timeout 3000 $demo" ) >>$log 2>&1; echo "demo-without-patch-exit=$?" >> $res
+    ( eval "timeout 3000 env $demo" ) >>$log 2>&1; echo "demo-without-patch-exit=$?" >> $res
     # (2)+(3) with patch
     git apply $d/patch$k.diff 2>>$log
-    ( eval "timeout 3000 $demo" ) >>$log 2>&1; echo "demo-with-patch-exit=$?" >> $res
+    ( eval "timeout 3000 env $demo" ) >>$log 2>&1; echo "demo-with-patch-exit=$?" >> $res
     git apply -R $d/demo$k.diff 2>>$log; git clean -fdq
     ( timeout 6000 cargo test $crates --offline -j 12 --no-fail-fast -- --skip cache_miss_triggers_fetch --skip unknown_kid_rejected --skip kid_resolved_via_jwks_succeeds ) >>$log 2>&1; echo "existing-tests-with-patch-exit=$? ($crates)" >> $res
     grep -E "^test result|FAILED|failed" $log | tail -40 > $OUT/$id-$k.summary
